@@ -12,6 +12,8 @@ structure, literal values and every range at once.
 """
 import random
 
+import tricky
+
 from runner import enc
 
 PUNCT = set("()[]{},=*")
@@ -109,14 +111,22 @@ class Gen:
             # decimal numerals in every spelling: leading zeros, signed zero, digits 8 and 9 after a leading zero
             t = r.choice(["0", "1", "42", "-7", "9007199254740993", "-1", "10", "010", "0100", "-010", "08", "09", "007",
                           "00", "-0", "0777", "9223372036854775807", "-9223372036854775808"])
+            if r.random() < 0.4:
+                t2 = r.choice(["", "-"]) + tricky.digit_string(r)
+                if -2 ** 63 <= int(t2) <= 2 ** 63 - 1:         # beyond that: known finding number-literal-out-of-range
+                    t = t2
             n = int(t)
             return lambda p: self._leaf(p, t, lambda R: "(num %s %d)" % (R, n))
         if k == "ratio":
             a, b = r.choice([("1", "2"), ("0", "1"), ("01", "010"), ("3", "3"), ("7", "0"), ("123456789012345678901", "999999999999999999999")])
+            if r.random() < 0.5:
+                a, b = tricky.ratio_parts(r)
             spl, spr = r.choice(["", " "]), r.choice(["", " "])
             return lambda p: self._leaf(p, a + spl + "/" + spr + b, lambda R: "(ratio %s %d %d)" % (R, int(a), int(b)))
         if k == "pct":
             a, b = r.choice([("50", ""), ("0", ""), ("08", ""), ("12", "5"), ("0", "10"), ("100", "000"), ("99999999999999999999", "1")])
+            if r.random() < 0.6:
+                a, b = tricky.percent_parts(r)
             text = a + ("." + b if b else "") + "%"
             return lambda p: self._leaf(p, text, lambda R: "(ratio %s %d %d)" % (R, int(a + b), 10 ** (2 + len(b))))
         # monetary
